@@ -72,6 +72,10 @@ def run(chk, ctx):
                 g = panrules.guards_at(P, gr, bb)
                 chk.require(any(x[0] == "call" and x[1] == "Vec::is_empty" and x[2] == ("self.cache",) and x[3] is True for x in g), "GUARD", "GUARD:get_row:interpreter-runs-only-when-cache-empty", "cached expansion rows are served without running the interpreter", "next_with_context is not guarded by cache.is_empty()")
     swap_pair_rule(chk, P)
+    # variables of ended loops are absent: the frame pairing of the interpreter (C01 obligation 4)
+    nwc = P.body(c01.NWC)
+    if nwc is not None:
+        c01.frames_obligation(chk, c01.Automaton(P, nwc))
     nx = P.body(NEXT)
     if nx is not None:
         others = [callee_name(t)[0] for bb, t in nx.calls() if callee_name(t)[0] in P.f.bodies and callee_name(t)[0] not in (TD + "get_row", DRI + "handle_io", "data_row_iterator::EvaluatedRow::into_data_row")]
